@@ -374,6 +374,10 @@ func exhaustiveC05(thorough bool, emit func(C05Case) bool) {
 	}
 }
 
-func TestC05(t *testing.T) {
-	Run(t, Prop[C05Case]{ID: "C05", Gen: genC05, Exhaustive: exhaustiveC05, Check: checkC05})
+func propC05() Prop[C05Case] {
+	return Prop[C05Case]{ID: "C05", Gen: genC05, Exhaustive: exhaustiveC05, Check: checkC05}
 }
+
+func TestC05(t *testing.T) { Run(t, propC05()) }
+
+func FuzzGenC05(f *testing.F) { RunFuzz(f, propC05()) }
